@@ -407,6 +407,16 @@ pub fn call_native(ip: Rc<Interp>, n: Rc<NativeFn>, mut args: Vec<V>, this: Opti
             "list.sort" => match args.as_slice() {
                 [V::List(l)] => {
                     let mut items = l.borrow().clone();
+                    // two objects with @<: the sort's first step is one @< call; only its failure is
+                    // modelled (which further comparisons follow a success is the sort algorithm's business)
+                    if let [V::Map(a), V::Map(b)] = items.as_slice() {
+                        if Rc::ptr_eq(a, b) {
+                            if let Some(f) = a.get_meta("@<") {
+                                call_value(ip.clone(), f, vec![items[1].clone()], Some(items[0].clone())).await?;
+                                return Err(Ctl::Unmodelled("comparison sequence of a sort over objects".into()));
+                            }
+                        }
+                    }
                     sort_plain(&mut items)?;
                     *l.borrow_mut() = items;
                     Ok(args[0].clone())
